@@ -65,6 +65,9 @@ Definition FileOk (ks : keyset) : Prop :=
   KeysOk ks /\ Forall key_ok (keys ks) /\ lenZ (keys ks) < 2 ^ 32.
 
 (* "can issue and decode cookies" *)
+Definition usable (enc : enc_t) (dec : dec_t) (ks : keyset) : Prop :=
+  forall c nonce, wf_cookie c -> lenZ nonce = 16 ->
+    exists b, encode_cookie enc ks c nonce = Ok b /\ decode_cookie dec ks b = Ok c.
 Definition prefix_of (p b : bytes) : Prop := exists s, b = p ++ s.
 Definition proper_prefix (p b : bytes) : Prop := exists s, s <> [] /\ b = p ++ s.
 
@@ -80,22 +83,36 @@ Definition out_load (r : res (keyset * Z)) : list Z :=
 
 (* load every prefix of [b] from length [from] on (ascending), with the outcome
    of using what loads: 1 if a cookie can be issued (no panic), else 0 *)
-Definition usable (r : res (keyset * Z)) : Z :=
+Definition usable_code (r : res (keyset * Z)) : Z :=
   match r with
   | Ok (ks, _) =>
-      match nth_error (keys ks) (Z.to_nat (primary ks)) with Some _ => 1 | None => 0 end
+      match nth_key (keys ks) (primary ks) with Some _ => 1 | None => 0 end
   | _ => 1
   end.
 Fixpoint load_prefixes (b : bytes) (lens : list nat) : list (list Z) :=
   match lens with
   | [] => []
-  | n :: r => (out_load (load (firstn n b)) ++ [usable (load (firstn n b))]) :: load_prefixes b r
+  | n :: r => (out_load (load (firstn n b)) ++ [usable_code (load (firstn n b))]) :: load_prefixes b r
   end.
 
-(* a case: the file bytes and the list of prefix lengths to load *)
-Definition run_c27 (i : bytes * list nat) : list (list Z) :=
-  match i with (b, lens) => load_prefixes b lens end.
+(* a case of the ntp-proto harness: load the listed prefixes of a file image, or store a key set *)
+Inductive c27_case :=
+| CLoad (b : bytes) (lens : list nat)
+| CStore (ks : keyset) (t : Z).
 
-(* store: the header fields and keys to the bytes *)
-Definition run_store (i : keyset * Z) : list Z :=
-  match i with (ks, t) => [lenZ (store ks t); be_dec (store ks t)] end.
+Definition run_c27 (i : c27_case) : list (list Z) :=
+  match i with
+  | CLoad b lens => load_prefixes b lens
+  | CStore ks t => [[lenZ (store ks t); be_dec (store ks t)]]
+  end.
+
+(* a case of the ntpd harness (nts_key_provider::spawn on a prepared path): the key
+   set the daemon runs with, as id_offset, primary, number of keys, keys.  [fresh] is
+   the random key of KeySetProvider::new, read back from the implementation. *)
+Definition run_start (i : option bytes * bytes) : list Z :=
+  match i with (file, fresh) =>
+    match start file fresh 0 with
+    | Ok (ks, _) => id_offset ks :: primary ks :: lenZ (keys ks) :: map be_dec (keys ks)
+    | _ => [-2]
+    end
+  end.
